@@ -58,6 +58,8 @@ Definition rsub_nn (a b : res) : res :=
   tab (keys a ++ keys b) (fun k => Z.max 0 (getv k a - getv k b)).
 Definition rmask (r : res) (names : list Z) : res := filter (fun e => memZ (fst e) names) r.
 
+Definition res_nonneg (r : res) : bool := forallb (fun e : Z * Z => 0 <=? snd e) r.
+
 (* resource-name ids (string order): 1 cpu, 2 ex.io/a, 3 ex.io/b, 4 memory, 5 pods *)
 Definition PODS : Z := 5.
 
@@ -327,6 +329,32 @@ Definition cstep (c : cache) (o : cop) : cache :=
 Definition crun (c : cache) (l : list cop) : cache := fold_left cstep l c.
 
 (* ------------------------------------------------------------------------------------ *)
+(* fitsReservation / fitsNodeAndReservation (node check skipped)                          *)
+
+Definition TOO_MANY_PODS : Z := 100.
+
+Definition fits_dim (i : rinfo) (req pre : res) (k : Z) : bool :=
+  let requested := getv k req in
+  if negb (hask k req) || (requested =? 0) then true
+  else
+    let capacity := getv k (r_allocatable i) - getv k (r_reserved i) in
+    let used := if hask k (r_allocated i)
+                then Z.max 0 (getv k (r_allocated i) - getv k pre) else 0 in
+    requested <=? capacity - used.
+
+Definition fits_pods (i : rinfo) (pre : res) : bool :=
+  if hask PODS (r_allocatable i)
+  then n_assigned i - getv PODS pre + 1 <=? getv PODS (r_allocatable i)
+  else true.
+
+Definition fits_reservation (i : rinfo) (req pre : res) : list Z :=
+  (if fits_pods i pre then [] else [TOO_MANY_PODS])
+  ++ filter (fun k => negb (fits_dim i req pre k)) (r_names i).
+
+Definition fits_node_and_reservation (i : rinfo) (req pre : res) : list Z :=
+  if s_policy (r_spec i) =? 2 then fits_reservation i req pre else [].
+
+(* ------------------------------------------------------------------------------------ *)
 (* the entry points the scheduler calls (event handlers + direct cache calls)            *)
 
 Record opx := mkOpx {       (* what makes a pod a reservation-operating-mode pod *)
@@ -366,8 +394,12 @@ Inductive hop :=
 | HPodDelete (p : pev)                   (* podEventHandler.OnDelete *)
 | HReserveRsv (s : rspec) (n : Z)        (* Plugin.Reserve(reserve pod of s, node n): s is the
                                             lister's object, the node comes from the call *)
-| HUnreserveRsv (s : rspec) (n : Z).     (* Plugin.Unreserve(reserve pod of s, node n); also when
+| HUnreserveRsv (s : rspec) (n : Z)      (* Plugin.Unreserve(reserve pod of s, node n); also when
                                             the lister no longer has s (uid from the pod) *)
+| HSchedule (pu : Z) (req : res) (n t : Z).
+  (* one scheduling cycle of the plugin for pod pu (no reservation affinity, owner label of
+     reservation t) on node n, which has room: BeforePreFilter -> Filter -> NominateReservation
+     -> Reserve *)
 
 Definition as_preq (p : pev) : preq := (e_uid p, e_req p).
 
@@ -396,7 +428,24 @@ Definition lower_pod_update (o : option pev) (p : pev) : list cop :=
        | None => []
        end.
 
-Definition lower (h : hop) : list cop :=
+(* NominateReservation for a pod without reservation affinity whose owner label selects
+   reservation t only: t must be visited on node n (matchableOnNode), match the pod (owners parse,
+   not terminating), and pass FilterNominateReservation: the allocate-once gate, a restricted
+   dimension in common with the pod, and -- Restricted policy -- the fit check *)
+Definition shares_name (i : rinfo) (req : res) : bool :=
+  existsb (fun k => memZ k (keys req)) (r_names i).
+Definition nominate_ok (i : rinfo) (req : res) : bool :=
+  nominate_gate i && shares_name i req
+  && (if s_policy (r_spec i) =? 2 then is_nil (fits_reservation i req []) else true).
+Definition sched_target (c : cache) (req : res) (n t : Z) : option rinfo :=
+  match find_info t (infos c) with
+  | Some i =>
+    if idx_mem n t (matchable c) && negb (r_perr i) && negb (s_term (r_spec i)) && nominate_ok i req
+    then Some i else None
+  | None => None
+  end.
+
+Definition lower (c : cache) (h : hop) : list cop :=
   match h with
   | HRsvAdd s => if is_active s then [CUpdate false 0 s] else []
   | HRsvUpdate s =>
@@ -412,16 +461,42 @@ Definition lower (h : hop) : list cop :=
   | HPodDelete p => lower_pod_delete p
   | HReserveRsv s n => [CUpdate false 0 (set_node s n)]
   | HUnreserveRsv s n => [CDelete (s_uid s) n]
+  | HSchedule pu req n t =>
+    match sched_target c req n t with
+    | Some _ => [CAddPod t pu req]      (* Reserve: assumePods(nominated, pod) *)
+    | None => []
+    end
   end.
 
-Definition hstep (c : cache) (h : hop) : cache := crun c (lower h).
-(* result code of the entry point (only assumePod reports one) *)
+Definition hstep (c : cache) (h : hop) : cache := crun c (lower c h).
+(* result code of the entry point: assumePod reports an error, a scheduling cycle the nominated
+   reservation (0 = none) *)
 Definition hcode (c : cache) (h : hop) : Z :=
   match h with
   | HPodAssume ru pu req => snd (c_add_pod ru pu req c)
+  | HSchedule pu req n t => match sched_target c req n t with Some _ => t | None => 0 end
   | _ => 0
   end.
 Definition hrun (c : cache) (l : list hop) : cache := fold_left hstep l c.
+
+(* the cache operations of a whole history of entry points *)
+Fixpoint hops_cops (c : cache) (l : list hop) : list cop :=
+  match l with
+  | [] => []
+  | h :: t => lower c h ++ hops_cops (hstep c h) t
+  end.
+
+(* requests carried by an entry point are non-negative *)
+Definition pev_nonneg (p : pev) : bool := res_nonneg (e_req p).
+Definition hop_nonneg (h : hop) : bool :=
+  match h with
+  | HPodAssume _ _ req => res_nonneg req
+  | HPodAdd p => pev_nonneg p
+  | HPodUpdate o p => pev_nonneg o && pev_nonneg p
+  | HPodDelete p => pev_nonneg p
+  | HSchedule _ req _ _ => res_nonneg req
+  | _ => true
+  end.
 
 (* states after every entry point, with its result code *)
 Fixpoint htrace (c : cache) (l : list hop) : list (Z * cache) :=
@@ -448,13 +523,40 @@ Definition node_stable_op (c : cache) (o : cop) : bool :=
   | _ => true
   end.
 
-Definition res_nonneg (r : res) : bool := forallb (fun e : Z * Z => 0 <=? snd e) r.
 Definition op_nonneg (o : cop) : bool :=
   match o with
   | CAddPod _ _ req => res_nonneg req
   | CUpdatePod _ _ _ (Some q) => res_nonneg (snd q)
   | _ => true
   end.
+
+(* the pod objects a cache operation records requests from (uid, requests) *)
+Definition delivered_cop (o : cop) : list preq :=
+  match o with
+  | CAddPod _ pu req => [(pu, req)]
+  | CUpdatePod _ _ _ (Some q) => [q]
+  | CUpdate _ own _ => if own =? 0 then [] else [(own, [])]
+  | _ => []
+  end.
+Definition res_eqb (a b : res) : bool :=
+  forallb (fun k => getv k a =? getv k b) (keys a ++ keys b).
+(* after the operation, every reservation that has a delivered pod assigned records the delivered
+   requests (fails e.g. when the same pod is assumed twice with different requests, or sits in two
+   reservations) *)
+Definition sync_op (c : cache) (o : cop) : bool :=
+  forallb (fun d : preq =>
+             forallb (fun i => forallb (fun q : preq => negb (fst q =? fst d) || res_eqb (snd q) (snd d))
+                                       (r_assigned i))
+                     (infos (cstep c o)))
+          (delivered_cop o).
+Fixpoint last_req (u : Z) (L : list preq) : option res :=
+  match L with
+  | [] => None
+  | d :: t => if fst d =? u then Some (snd d) else last_req u t
+  end.
+(* newest first *)
+Definition deliver (L : list preq) (l : list cop) : list preq :=
+  fold_left (fun L o => delivered_cop o ++ L) l L.
 
 Fixpoint all_along (P : cache -> cop -> bool) (c : cache) (l : list cop) : bool :=
   match l with
@@ -480,7 +582,9 @@ Record iview := mkIview {
   v_names : list Z;
   v_allocated : list Z;             (* per dim *)
   v_reserved : list Z;              (* per dim *)
-  v_allocatable : list Z            (* per dim, -1 = absent *)
+  v_allocatable : list Z;           (* per dim, -1 = absent *)
+  v_policy : Z;                     (* GetAllocatePolicy: 0 Default, 1 Aligned, 2 Restricted *)
+  v_cap : list Z                    (* per dim: allocatable - reserved (absent = 0) *)
 }.
 
 Record cview := mkCview {
@@ -496,7 +600,9 @@ Definition info_view (i : rinfo) : iview :=
   mkIview (r_uid i) (r_node i) (is_available (r_spec i)) (r_perr i) (s_once (r_spec i))
           (s_term (r_spec i)) (is_matchable i) (nominate_gate i)
           (sort_by fst (map (fun q : preq => (fst q, vals (snd q))) (r_assigned i)))
-          (r_names i) (vals (r_allocated i)) (vals (r_reserved i)) (pvals (r_allocatable i)).
+          (r_names i) (vals (r_allocated i)) (vals (r_reserved i)) (pvals (r_allocatable i))
+          (s_policy (r_spec i))
+          (map (fun k => getv k (r_allocatable i) - getv k (r_reserved i)) dims).
 
 Definition idx_view (ix : idx) : idx :=
   sort_by fst (map (fun e : Z * list Z => (fst e, sortZ (snd e))) ix).
@@ -514,32 +620,6 @@ Definition view (code : Z) (c : cache) : cview :=
           (idx_view (on_node c)) (idx_view (matchable c)) (idx_view (alloc_idx c))
           (list_all_nodes true c) (list_all_nodes false c)
           (map (fun n => visit n c) node_ids).
-
-(* ------------------------------------------------------------------------------------ *)
-(* fitsReservation / fitsNodeAndReservation (node check skipped)                          *)
-
-Definition TOO_MANY_PODS : Z := 100.
-
-Definition fits_dim (i : rinfo) (req pre : res) (k : Z) : bool :=
-  let requested := getv k req in
-  if negb (hask k req) || (requested =? 0) then true
-  else
-    let capacity := getv k (r_allocatable i) - getv k (r_reserved i) in
-    let used := if hask k (r_allocated i)
-                then Z.max 0 (getv k (r_allocated i) - getv k pre) else 0 in
-    requested <=? capacity - used.
-
-Definition fits_pods (i : rinfo) (pre : res) : bool :=
-  if hask PODS (r_allocatable i)
-  then n_assigned i - getv PODS pre + 1 <=? getv PODS (r_allocatable i)
-  else true.
-
-Definition fits_reservation (i : rinfo) (req pre : res) : list Z :=
-  (if fits_pods i pre then [] else [TOO_MANY_PODS])
-  ++ filter (fun k => negb (fits_dim i req pre k)) (r_names i).
-
-Definition fits_node_and_reservation (i : rinfo) (req pre : res) : list Z :=
-  if s_policy (r_spec i) =? 2 then fits_reservation i req pre else [].
 
 (* ------------------------------------------------------------------------------------ *)
 (* owner matching                                                                          *)
